@@ -155,7 +155,13 @@ theorem Static.Valid.flatten {S : Static} (hS : S.Valid) {n : Nat} (hrank : S.Fl
         rw [hlev L hL] at hconn
         obtain ⟨hb, hfi⟩ := (S.flatW_conn hS n _ _ _ _).1 hconn
         have ha := hS.flatInputs_device hfi
-        exact ⟨fun h => hS.external_not_device (h ▸ hb), fun h => hS.expose_not_device (h ▸ ha)⟩ }
+        exact ⟨fun h => hS.external_not_device (h ▸ hb), fun h => hS.expose_not_device (h ▸ ha)⟩
+      master_fresh := by
+        rw [S.flatten_parent, if_neg]
+        intro h
+        have := (Static.mem_devices_iff.1 h).1
+        rw [hS.master_fresh] at this
+        cases this }
 
 /-- `resolve` on the flattened configuration, at the master level -/
 theorem Static.flatten_resolve_master (S : Static) (n m : Nat) (a : Comp) (p : Port) :
